@@ -369,6 +369,14 @@ func (lm *levelManager) maxVersion() uint64 {
 				max = v
 			}
 		}
+		for _, tbl := range lh.ingest.allTables() {
+			if tbl == nil {
+				continue
+			}
+			if v := tbl.MaxVersionVal(); v > max {
+				max = v
+			}
+		}
 		lh.RUnlock()
 	}
 	return max
